@@ -5,17 +5,22 @@
 //
 // usage: c11_ser <seed> <count-per-type> [types...]
 #include "c11_big.h"
+#include "c11_alloc.h"
 
 using namespace c11;
 
 namespace
 {
 
+// `ctx`: context the model's load needs (symbol table of the object's own symbol set); when empty
+// the `symtab` line printed at start applies
 void emit(const std::string &type, const std::string &description, const std::string &bytes,
-          const std::string &verdict, const std::string &tags = "")
+          const std::string &verdict, const std::string &tags = "", const std::string &ctx = "")
 {
   std::cout << "obj " << type << ' ' << description << " | " << verif::hex(bytes) << " | "
-            << verdict << " | " << (tags.empty() ? "-" : tags) << "\n";
+            << verdict << " | " << (tags.empty() ? "-" : tags);
+  if (!ctx.empty()) std::cout << " | " << ctx;
+  std::cout << "\n";
 }
 
 void gen_hash(splitmix &r, unsigned n)
@@ -100,7 +105,9 @@ void gen_dist(splitmix &r, unsigned n)
 int main(int argc, char *argv[])
 {
   vita::log::reporting_level = vita::log::lOFF;
-  std::cout << "symtab " << c11::M().symtab() << std::endl;   // also: the symbol set is built first
+  (void)c11::M();                                      // the symbol sets are built first, in a fixed
+  (void)c11::L();                                      // order: same opcodes in every harness process
+  std::cout << "symtab " << c11::M().symtab() << std::endl;
   const std::uint64_t seed(argc > 1 ? std::stoull(argv[1]) : 1);
   const unsigned n(argc > 2 ? unsigned(std::stoul(argv[2])) : 100);
   std::vector<std::string> types;
